@@ -27,3 +27,44 @@ pub fn opcode_span(op: u8) -> Option<usize> {
 pub fn opcode_name(op: u8) -> Option<String> {
     Instruction::try_from(op).ok().map(|i| format!("{i:?}"))
 }
+
+// ---------------------------------------------------------------------------------------------
+// harness-controlled switches (all off unless a harness turns them on)
+
+use std::sync::atomic::{AtomicI64, AtomicU64, Ordering};
+
+/// Force a collection at the allocation with this ordinal (counting allocator calls from the
+/// moment the schedule was set); bit i of the mask = collect at allocation i. 0 = never.
+static GC_SCHEDULE: AtomicU64 = AtomicU64::new(0);
+static GC_ALLOC_ORDINAL: AtomicU64 = AtomicU64::new(0);
+static DISPATCH_COUNT: AtomicU64 = AtomicU64::new(0);
+static FAIL_ALLOC_AT: AtomicI64 = AtomicI64::new(-1);
+
+/// bit i set = force `RuntimeData::gc` right before the i-th allocation from now on
+pub fn set_gc_schedule(mask: u64) {
+    GC_SCHEDULE.store(mask, Ordering::Relaxed);
+    GC_ALLOC_ORDINAL.store(0, Ordering::Relaxed);
+}
+
+/// called by `CaoLangAllocator::alloc`
+pub fn gc_requested() -> bool {
+    let mask = GC_SCHEDULE.load(Ordering::Relaxed);
+    if mask == 0 {
+        return false;
+    }
+    let n = GC_ALLOC_ORDINAL.fetch_add(1, Ordering::Relaxed);
+    n < 64 && (mask >> n) & 1 == 1
+}
+
+pub fn reset_dispatch_count() {
+    DISPATCH_COUNT.store(0, Ordering::Relaxed);
+}
+
+pub fn dispatch_count() -> u64 {
+    DISPATCH_COUNT.load(Ordering::Relaxed)
+}
+
+/// called by the interpreter loop once per dispatched instruction
+pub fn count_dispatch() {
+    DISPATCH_COUNT.fetch_add(1, Ordering::Relaxed);
+}
